@@ -225,6 +225,11 @@ def method(ex, base, name, e, st):
     if isinstance(base, Coll):
         args, kwargs = ex.args_of(e, st)
         tgt = e.func.value
+        if name in ("pop", "append", "add", "insert", "remove", "discard", "clear", "extend", "update", "sort", "reverse") and isinstance(tgt, ast.Name):
+            # local collections are modelled as VALUES (a mutation rebinds the name): sound only if no other local
+            # refers to the same object
+            if any(v is base and k != tgt.id for k, v in st.env.items()):
+                raise Unsupported(f"the collection bound to {tgt.id} has another name as well and is mutated in place")
         if name == "pop":
             x = ctx.fresh_name("popped")
             ex.split_raise(st, z3.Not(ex.truthy(base)), "IndexError" if base.is_list else "KeyError")
